@@ -10,7 +10,12 @@ What HDF5 adds to the picture is *storage types*: every attribute / dataset has 
 and writing a value into a dataset of another dtype casts it (float → int truncates toward
 zero).  Numeric arrays therefore carry their dtype kind (`NumArr.ints` / `NumArr.floats`,
 `DBuf.ints/floats/complexes`), and `cast` is the conversion numpy/h5py perform.
-h5py/libhdf5 byte encoding is not modelled (trusted).  Core Lean only.
+Field values are binary64 *bit patterns* (`FV`): a finite value is the rational it is, and the
+patterns that are not numbers (−0, ±inf, NaN with sign and payload) are tokens, so "bit-identical"
+is equality in the model.  `int64 → float64` on data is the C cast (`rne53`: round to nearest,
+ties to even).  The time-series helpers (`_h5_save_structure` with a larger `data_shape`,
+`_h5_save_data` / `_h5_load_field` with a `location`) are modelled on the flat C-order buffer
+(`writeLoc`, `readLoc`).  h5py/libhdf5 byte encoding is not modelled (trusted).  Core Lean only.
 -/
 namespace DFV.C10
 open DFV
@@ -212,6 +217,42 @@ def TMesh.init (r : TReg) (n : List Int) (bc : String) (subs : List (String × T
   else (setSubs r (n.map Int.toNat) subs).bind fun ss =>
     .ok { region := r, n := n.map Int.toNat, bc := bc.toLower, subs := ss }
 
+/-! ## Field values -/
+
+/-- a binary64 value by bit pattern: finite values as the rational they are (`fin 0` is +0), the
+rest as tokens -/
+inductive FV where
+  | fin (q : Rat)
+  | negZero
+  | inf (neg : Bool)
+  | nan (neg : Bool) (payload : Nat)
+  deriving DecidableEq, Repr, Inhabited
+
+/-- number of low bits a natural number has beyond 53 (search upward from `e`, with fuel) -/
+def dropE (n : Nat) : Nat → Nat → Nat
+  | 0, e => e
+  | fuel + 1, e => if n / 2 ^ e < 2 ^ 53 then e else dropE n fuel (e + 1)
+
+/-- round-to-nearest, ties-to-even of `n` to a multiple of `2 ^ e` -/
+def rneNat (n e : Nat) : Nat :=
+  if 2 * (n % 2 ^ e) < 2 ^ e then n / 2 ^ e * 2 ^ e
+  else if 2 ^ e < 2 * (n % 2 ^ e) then (n / 2 ^ e + 1) * 2 ^ e
+  else if n / 2 ^ e % 2 = 0 then n / 2 ^ e * 2 ^ e
+  else (n / 2 ^ e + 1) * 2 ^ e
+
+/-- C cast `int64 → double` (what `np.full(…, dtype=float64)` does to an integer array): exact up
+to 2^53 in magnitude, beyond that rounded to 53 significant bits, ties to even (fuel 64 covers
+every `int64`) -/
+def rne53 (i : Int) : Int :=
+  if i.natAbs ≤ 2 ^ 53 then i
+  else i.sign * (rneNat i.natAbs (dropE i.natAbs 64 0) : Nat)
+
+/-- C cast `double → int64` for the values that have one (finite, in range): truncation; the
+result for the other bit patterns is platform-defined and never relied upon -/
+def FV.trunc : FV → Int
+  | .fin q => truncR q
+  | _ => 0
+
 /-! ## Field arrays -/
 
 inductive DK where
@@ -221,8 +262,8 @@ inductive DK where
 /-- flat C-order buffer of the value array with its dtype kind -/
 inductive DBuf where
   | ints (v : List Int)
-  | floats (v : List Rat)
-  | complexes (v : List (Rat × Rat))
+  | floats (v : List FV)
+  | complexes (v : List (FV × FV))
   deriving DecidableEq, Repr, Inhabited
 
 namespace DBuf
@@ -237,22 +278,52 @@ def length : DBuf → Nat
   | floats v => v.length
   | complexes v => v.length
 
-/-- the numbers held, as (re, im) -/
-def vals : DBuf → List (Rat × Rat)
-  | ints v => v.map fun (i : Int) => ((i : Rat), (0 : Rat))
-  | floats v => v.map fun q => (q, 0)
+/-- the values held, as (re, im) -/
+def vals : DBuf → List (FV × FV)
+  | ints v => v.map fun (i : Int) => (FV.fin (i : Rat), FV.fin 0)
+  | floats v => v.map fun q => (q, FV.fin 0)
   | complexes v => v
 
-/-- `np.full(shape, val, dtype=max(val.dtype, np.float64))`: integer data become float -/
+/-- `np.full(shape, val, dtype=max(val.dtype, np.float64))`: integer data become float (C cast) -/
 def upcast : DBuf → DBuf
-  | ints v => floats (v.map fun (i : Int) => (i : Rat))
+  | ints v => floats (v.map fun (i : Int) => FV.fin ((rne53 i : Int) : Rat))
   | b => b
 
 /-- pick the entries at the given flat positions -/
 def gather (idx : List Nat) : DBuf → DBuf
   | ints v => ints (idx.map fun k => v.getD k 0)
-  | floats v => floats (idx.map fun k => v.getD k 0)
-  | complexes v => complexes (idx.map fun k => v.getD k (0, 0))
+  | floats v => floats (idx.map fun k => v.getD k (FV.fin 0))
+  | complexes v => complexes (idx.map fun k => v.getD k (FV.fin 0, FV.fin 0))
+
+/-- a freshly created dataset is zero-filled -/
+def zeros : DK → Nat → DBuf
+  | .int, k => ints (List.replicate k 0)
+  | .float, k => floats (List.replicate k (FV.fin 0))
+  | .complex, k => complexes (List.replicate k (FV.fin 0, FV.fin 0))
+
+/-- conversion libhdf5 performs when an array is written into a dataset of another dtype: C casts
+between int and float, no conversion path between real and complex (`OSError`) -/
+def castTo : DK → DBuf → M DBuf
+  | .int, ints v => .ok (ints v)
+  | .int, floats v => .ok (ints (v.map FV.trunc))
+  | .float, ints v => .ok (floats (v.map fun (i : Int) => FV.fin ((rne53 i : Int) : Rat)))
+  | .float, floats v => .ok (floats v)
+  | .complex, complexes v => .ok (complexes v)
+  | _, _ => .error .runtime
+
+/-- `len` entries from flat position `start` -/
+def slice (start len : Nat) : DBuf → DBuf
+  | ints v => ints ((v.drop start).take len)
+  | floats v => floats ((v.drop start).take len)
+  | complexes v => complexes ((v.drop start).take len)
+
+/-- the buffer with the entries from flat position `start` on replaced by those of `b` (same
+dtype kind; otherwise unchanged) -/
+def splice (start : Nat) : DBuf → DBuf → DBuf
+  | ints v, ints w => ints (v.take start ++ w ++ v.drop (start + w.length))
+  | floats v, floats w => floats (v.take start ++ w ++ v.drop (start + w.length))
+  | complexes v, complexes w => complexes (v.take start ++ w ++ v.drop (start + w.length))
+  | d, _ => d
 
 end DBuf
 
@@ -345,10 +416,9 @@ def TFld.init (mesh : TMesh) (nvdim : Option Int) (value : DArr) (vdims : Option
       (asArray d1 mesh.n k.toNat).bind fun data =>
       (asValid valid mesh.n).bind fun v =>
       (vdimsSet k.toNat vdims).bind fun vd =>
-      -- `vdim_mapping` setter: `dict(zip(self.vdims, dims))` with `vdims = None` is a TypeError
-      if k.toNat ≠ 1 ∧ k.toNat = mesh.region.dims.length ∧ vd = none then .error .type
-      else .ok { mesh := mesh, nvdim := k.toNat, data := data, valid := v, vdims := vd,
-                 vmap := defaultVmap k.toNat mesh.region.dims vd, unit := unit }
+      -- `vdim_mapping` setter with `None`: the default mapping (empty when there are no labels)
+      .ok { mesh := mesh, nvdim := k.toNat, data := data, valid := v, vdims := vd,
+            vmap := defaultVmap k.toNat mesh.region.dims vd, unit := unit }
 
 /-! ## The HDF5 file as a typed store -/
 
@@ -445,8 +515,61 @@ def fieldSave (f : TFld) : H5Field :=
   { mesh := meshSave f.mesh, nvdim := (f.nvdim : Int), vdims := encVdims f.vdims, unit := encUnit f.unit,
     array := f.data, valid := f.valid }
 
-/-- `Field._to_hdf5` -/
+/-- the store `Field._to_hdf5` leaves behind (spec form: the array dataset *is* the array;
+`toHdf5` below is the code-shaped writer, `toHdf5_eq_h5Save` relates them) -/
 def h5Save (f : TFld) : H5File := .versioned "0.1" "discretisedfield.Field" (fieldSave f)
+
+/-- the `location` / `data_location` argument of `_h5_save_data` / `_h5_load_field`:
+`slice(None)` (the whole dataset) or an integer index along an extra leading axis (one field
+of a series) -/
+inductive Loc where
+  | all
+  | idx (t : Int)
+  deriving DecidableEq, Repr, Inhabited
+
+/-- `h5_field_data[location] = array`: the index must lie in `[-T, T)` (`IndexError`), the
+shapes must agree (h5py would try to broadcast; only equal shapes are modelled as accepted),
+the values are converted to the dataset's dtype -/
+def writeLoc (ds : DArr) (loc : Loc) (a : DArr) : M DArr :=
+  match loc with
+  | .all =>
+    if a.shape ≠ ds.shape then .error .type
+    else (a.buf.castTo ds.buf.kind).bind fun b => .ok { shape := ds.shape, buf := b }
+  | .idx t =>
+    match ds.shape with
+    | [] => .error .index
+    | T :: rest =>
+      if t < -(T : Int) ∨ (T : Int) ≤ t then .error .index
+      else if a.shape ≠ rest then .error .type
+      else (a.buf.castTo ds.buf.kind).bind fun b =>
+        .ok { shape := ds.shape, buf := ds.buf.splice ((t % (T : Int)).toNat * natProd rest) b }
+
+/-- `h5_field["array"][data_location]` -/
+def readLoc (ds : DArr) (loc : Loc) : M DArr :=
+  match loc with
+  | .all => .ok ds
+  | .idx t =>
+    match ds.shape with
+    | [] => .error .index
+    | T :: rest =>
+      if t < -(T : Int) ∨ (T : Int) ≤ t then .error .index
+      else .ok { shape := rest, buf := ds.buf.slice ((t % (T : Int)).toNat * natProd rest) (natProd rest) }
+
+/-- `_h5_save_structure(h5_field, data_shape)`: mesh, attributes, validity, and an empty
+(zero-filled) dataset `array` of the given shape and of the field's dtype -/
+def saveStructure (f : TFld) (dataShape : List Nat) : H5Field :=
+  { mesh := meshSave f.mesh, nvdim := (f.nvdim : Int), vdims := encVdims f.vdims, unit := encUnit f.unit,
+    array := { shape := dataShape, buf := DBuf.zeros f.data.buf.kind (natProd dataShape) }, valid := f.valid }
+
+/-- `_h5_save_data(h5_field_data, location)` -/
+def saveData (h : H5Field) (loc : Loc) (f : TFld) : M H5Field :=
+  (writeLoc h.array loc f.data).bind fun a => .ok { h with array := a }
+
+/-- `Field._to_hdf5`, code-shaped: structure with `data_shape = (*n, nvdim)`, then the data at
+`slice(None)` -/
+def toHdf5 (f : TFld) : M H5File :=
+  (saveData (saveStructure f (f.mesh.n ++ [f.nvdim])) .all f).bind fun h =>
+    .ok (.versioned "0.1" "discretisedfield.Field" h)
 
 /-! ## Reading -/
 
@@ -479,11 +602,15 @@ def decVdims : VdimsAttr → M (Option (List String))
 /-- attribute `unit`: the string `"None"` stands for no unit -/
 def decUnit (s : String) : Option String := if s = "None" then none else some s
 
-/-- `_h5_load_field` -/
-def fieldLoad (h : H5Field) : M TFld :=
+/-- `_h5_load_field(h5_field, data_location)` -/
+def fieldLoadAt (h : H5Field) (loc : Loc) : M TFld :=
   (meshLoad h.mesh).bind fun m =>
     (decVdims h.vdims).bind fun vd =>
-      TFld.init m (some h.nvdim) h.array vd (decUnit h.unit) (some h.valid)
+      (readLoc h.array loc).bind fun a =>
+        TFld.init m (some h.nvdim) a vd (decUnit h.unit) (some h.valid)
+
+/-- `_h5_load_field(f["field"], slice(None))` -/
+def fieldLoad (h : H5Field) : M TFld := fieldLoadAt h .all
 
 /-- `mesh.load_subregions(filename)` when the side-car exists:
 `mesh.subregions = {key: Region(**val) …}` -/
@@ -548,6 +675,32 @@ def loaded (f : TFld) : TFld :=
     data := { f.data with buf := f.data.buf.upcast }
     vmap := defaultVmap f.nvdim f.mesh.region.dims f.vdims }
 
+/-- what the attribute `vdims` of the file makes of the labels: absent labels are stored as the
+string `"None"`, which the reader hands to `Field` as `vdims=None` — the constructor's default -/
+def recodeVdims (nvdim : Nat) : Option (List String) → Option (List String)
+  | none => Fld.defaultVdims nvdim
+  | some l => some l
+
+def rereadVdims (f : TFld) : Option (List String) := recodeVdims f.nvdim f.vdims
+
+/-- The field the reader returns for the file of `f` *as the code stands*: `loaded f`, except that
+the unit went through `str(unit)` / `"None"` and the labels through `"None"` / the constructor
+default (`reread_eq_loaded`: no difference unless the unit is the string `"None"` or a field with
+more than one component has no labels). -/
+def reread (f : TFld) : TFld :=
+  { loaded f with
+    unit := decUnit (encUnit f.unit)
+    vdims := rereadVdims f
+    vmap := defaultVmap f.nvdim f.mesh.region.dims (rereadVdims f) }
+
+/-- integer data that survive the conversion to binary64 on reading (`rne53_eq_iff`: exactly the
+integers with at most 53 significant bits, in particular all with |i| ≤ 2^53) -/
+def DBuf.intSafeB : DBuf → Bool
+  | .ints v => v.all fun i => decide (rne53 i = i)
+  | _ => true
+
+def DBuf.IntSafe (b : DBuf) : Prop := b.intSafeB = true
+
 /-- value-level equality of regions: everything but the dtype of the corner arrays -/
 def TReg.sameValues (a b : TReg) : Prop :=
   a.pmin.vals = b.pmin.vals ∧ a.pmax.vals = b.pmax.vals ∧ a.dims = b.dims ∧ a.units = b.units ∧ a.tol = b.tol
@@ -587,13 +740,14 @@ def TMesh.invB (m : TMesh) : Bool :=
 
 def TMesh.Inv (m : TMesh) : Prop := m.invB = true
 
-/-- what `Field.__init__` guarantees -/
+/-- what `Field.__init__` and the setters guarantee (labels: a non-empty duplicate-free list of
+`nvdim` names, or none at all — `vdims=[]` — whatever the component count) -/
 def TFld.invB (f : TFld) : Bool :=
   f.mesh.invB && decide (1 ≤ f.nvdim) &&
   decide (f.data.shape = f.mesh.n ++ [f.nvdim]) && decide (f.data.buf.length = natProd (f.mesh.n ++ [f.nvdim])) &&
   decide (f.valid.shape = f.mesh.n) && decide (f.valid.buf.length = natProd f.mesh.n) &&
   (match f.vdims with
-   | none => decide (f.nvdim = 1)
+   | none => true
    | some l => !l.isEmpty && decide (l.length = f.nvdim) && !hasDup l)
 
 def TFld.Inv (f : TFld) : Prop := f.invB = true
